@@ -195,7 +195,8 @@ fn sample_tree(rng: &mut Rng, cluster_bytes: usize, big: bool, full_dir: bool) -
         nodes.push(Node::File {
             name,
             lfn: if rng.chance(1, 3) { Some(lfn_units(&format!("long file name number {i}.data"))) } else { None },
-            attr: if i == 1 { 0x21 } else { 0x20 },
+            // F1.DAT is read-only, in the combinations a DOS / Windows writer leaves (with hidden / system / without archive)
+            attr: if i == 1 { [0x21u8, 0x23, 0x27, 0x01, 0x05, 0x03][len % 6] } else { 0x20 },
             content: content(rng, len, i as u8),
             ctime: st,
             mtime: stamp(rng),
